@@ -765,10 +765,11 @@ Record config := mkConfig {
   c_horizon : Q;
   c_events : list (Q * qitem);     (* sorted by time *)
   c_look_to_time : option Q;       (* server_main's --look-to-time *)
+  c_origin : Q;                    (* what the clock reads when the process starts *)
 }.
 
 Definition bot0 (c : config) : bot :=
-  {| b_instance := c_instance c; b_last_activity := 0%Q; b_udi := c_udi c;
+  {| b_instance := c_instance c; b_last_activity := c_origin c; b_udi := c_udi c;
      b_stop_at_rounds := c_stop_at_rounds c; b_call_comps := c_call_comps c; b_name := c_name c;
      b_gen := c_gen c; b_next_gen := None; b_ringing := false; b_rounds_flag := false;
      b_opening_flag := true; b_rounds_left := None; b_rows_left := None; b_should_stand := false;
@@ -776,7 +777,7 @@ Definition bot0 (c : config) : bot :=
      b_row := []; b_calls := [] |}.
 
 Definition world0 (c : config) : world :=
-  {| w_now := 0%Q; w_queue := c_events c; w_server := []; w_tower := tower0; w_bot := bot0 c;
+  {| w_now := c_origin c; w_queue := c_events c; w_server := []; w_tower := tower0; w_bot := bot0 c;
      w_rhythm := c_rhythm c; w_out := []; w_delta := c_delta c; w_horizon := c_horizon c;
      w_margin := BIG; w_unsupported := false; w_fuel_out := false |}.
 
